@@ -2,11 +2,12 @@ SPECIFICATION Spec
 CONSTANTS
   Denoms = {"eth"}
   Mods <- Mods0
-  MaxTx = 1
-  Fuel = 4
+  MaxTx = 2
+  Fuel = 3
+  Level = 1
   Genesis <- Genesis0
-  CallMenu <- TreeCalls
-  BehMenu <- TreeMenu
+  CallMenu <- AtomCalls
+  BehMenu <- AtomMenu
 VIEW view
 INVARIANTS InvAtomic InvEffective InvReads InvReply InvEvents InvScriptUsed InvOneRespPerMsg InvPrivate
 CHECK_DEADLOCK FALSE
